@@ -108,6 +108,19 @@ func (o *C16) keys(x *h.Exec, c *h.Check) bool {
 			all = append(all, d)
 		}
 	}
+	// pairs of different key sets that look alike when rendered carelessly:
+	// a string literal vs a reference of the same text, "1" vs 1, "true" vs true,
+	// a value under another attribute name, a label value vs an attribute value
+	for _, pr := range [][2]world.AttrDepSpec{
+		{{Name: "k1", Static: &world.ValSpec{Expr: `"p.one"`}}, {Name: "k1", Addr: "p.one"}},
+		{{Name: "k1", Static: &world.ValSpec{Expr: `"1"`}}, {Name: "k1", Static: &world.ValSpec{Expr: "1"}}},
+		{{Name: "k1", Static: &world.ValSpec{Expr: `"true"`}}, {Name: "k1", Static: &world.ValSpec{Expr: "true"}}},
+		{{Name: "k1", Static: &world.ValSpec{Expr: `"a"`}}, {Name: "k2", Static: &world.ValSpec{Expr: `"a"`}}},
+	} {
+		all = append(all, &world.DepBodySpec{Attrs: []world.AttrDepSpec{pr[0]}}, &world.DepBodySpec{Attrs: []world.AttrDepSpec{pr[1]}})
+	}
+	all = append(all, &world.DepBodySpec{Labels: []world.LabelDepSpec{{Index: 0, Value: "a"}}}, &world.DepBodySpec{Labels: []world.LabelDepSpec{{Index: 1, Value: "a"}}},
+		&world.DepBodySpec{Attrs: []world.AttrDepSpec{{Name: "a", Static: &world.ValSpec{Expr: `"a"`}}}})
 	type seen struct {
 		canon string
 		d     *world.DepBodySpec
